@@ -321,3 +321,43 @@ func InCheap(r *common.Rand, sats uint64) txgen.InSpec {
 	return txgen.InSpec{Txid: common.Hex(Fill(r, 32)), Vout: uint32(r.Intn(4)), Seq: 0xffffffff, Sats: sats,
 		Prev: common.Hex(P2PKH(Fill(r, 20))), UnlockNil: true}
 }
+
+func varintLen(n uint64) uint64 {
+	switch {
+	case n < 0xfd:
+		return 1
+	case n <= 0xffff:
+		return 3
+	case n <= 0xffffffff:
+		return 5
+	}
+	return 9
+}
+
+// EstSize: the size the transaction will have once every unsigned input carries a P2PKH unlocking script
+// (107 bytes: push of a 72-byte signature with hash type, push of a 33-byte key), split into data bytes
+// (the scripts of data outputs) and the rest — computed from the plain description, not by the library.
+// ok is false unless every input spends a plain 25-byte P2PKH output (the only case stated here).
+func EstSize(s txgen.TxSpec) (std, data uint64, ok bool) {
+	total := uint64(4 + 4)
+	total += varintLen(uint64(len(s.Ins))) + varintLen(uint64(len(s.Outs)))
+	for _, in := range s.Ins {
+		prev := common.Unhex(in.Prev)
+		if in.PrevNil || len(prev) != 25 || prev[0] != 0x76 || prev[1] != 0xa9 || prev[2] != 0x14 || prev[23] != 0x88 || prev[24] != 0xac {
+			return 0, 0, false
+		}
+		ul := uint64(len(common.Unhex(in.Unlock)))
+		if in.UnlockNil || ul == 0 {
+			ul = 107
+		}
+		total += 32 + 4 + varintLen(ul) + ul + 4
+	}
+	for _, o := range s.Outs {
+		sc := common.Unhex(o.Script)
+		total += 8 + varintLen(uint64(len(sc))) + uint64(len(sc))
+		if IsData(sc) {
+			data += uint64(len(sc))
+		}
+	}
+	return total - data, data, true
+}
